@@ -112,6 +112,13 @@ def gen_cases(rng, tier):
         yield spec
     for spec in _loop_cases(rng, tier):
         yield spec
+    # random search restricted to a list of configurations, duplicates allowed or not, with failing trials: the searcher's
+    # black list of failed configurations is the only thing that keeps them from being drawn from the list again
+    # (appended: the cases above stay the same for a seed)
+    for i in range(12 if tier == "quick" else 150):
+        spec = _searcher.gen_restricted_case(rng, i)
+        spec.update({"stream": "restricted", "p_fail": rng.choice([0.2, 0.4])})   # (`kind` is the searcher's kind here: random)
+        yield spec
 
 
 def _loop_cases(rng, tier):
@@ -136,6 +143,28 @@ def run_impl(spec):
         return {"lines": t["lines"], "driver": SEARCHER, "monitor": mon,
                 "meta": {"hist": {"kind:gp": 1, "failures": len(fails), "gp_allow_duplicates:" + str(bool(spec.get("allow_duplicates"))): 1},
                          "nontrivial": nt}}
+    if spec.get("stream") == "restricted":
+        t = _searcher.run_searcher_scenario(spec)
+        ev = t["events"]
+        mon, cfg_of, failed_cfgs = [], {}, []
+        # a searcher driven without a scheduler learns the configuration of a trial through register_pending (schedulers
+        # always call it; the scenario leaves it out for some trials): only then can it black-list it
+        registered = {l[0]["trial"] for l in t["lines"] if l[0].get("op") == "register_pending"}
+        for e in ev:
+            if e["ev"] == "suggest":
+                hit = next((tid for tid, fc in failed_cfgs if fc == e["config"]), None)
+                if hit is not None and not mon:
+                    mon.append({"signature": "c13:failed-config-suggested-again",
+                                "what": f"restrict_configurations, allow_duplicates={spec['ctor']['allow_duplicates']}: trial {e['trial']} is given "
+                                        f"the configuration {e['config']!r} of failed trial {hit}", "detail": {"config": repr(e["config"])}})
+                cfg_of[e["trial"]] = e["config"]
+            elif e["ev"] == "failed" and e["trial"] in cfg_of and (spec.get("sched") or e["trial"] in registered):
+                failed_cfgs.append((e["trial"], cfg_of[e["trial"]]))
+        fails = [i for i, e in enumerate(ev) if e["ev"] == "failed"]
+        nt = bool(fails) and any(e["ev"] == "suggest" for e in ev[fails[0]:])
+        return {"lines": t["lines"], "driver": SEARCHER, "monitor": mon,
+                "meta": {"hist": {"kind:restricted": 1, "failures": len(fails),
+                                  "restricted_allow_duplicates:" + str(bool(spec["ctor"]["allow_duplicates"])): 1}, "nontrivial": nt}}
     if kind == "hb":
         t = hb.run_scenario(spec)
         sched = t.pop("sched")
